@@ -60,6 +60,9 @@ type c15Case struct {
 	// Sentinel appends a NULL call (xid c15SentinelXid); its reply ends the read
 	// loop at once instead of an idle wait (enumeration phase).
 	Sentinel bool `json:"sentinel,omitempty"`
+	// Chunks: the first 4 KiB of the stream reach the server in pieces of these sizes (cyclically), as TCP segments
+	// may; empty = one write
+	Chunks []int `json:"chunks,omitempty"`
 }
 
 const c15SentinelXid = 5999
@@ -113,6 +116,9 @@ func genC15(t *rapid.T) c15Case {
 			r.RawFrame = rapid.SampledFrom(c15Hostile).Draw(t, "rawframe") | pick(t, "flag", uint32(0), 0x80000000)
 		}
 		c.Recs = append(c.Recs, r)
+	}
+	if rapid.IntRange(0, 2).Draw(t, "chunked") == 0 {
+		c.Chunks = rapid.SliceOfN(rapid.IntRange(1, 9), 1, 6).Draw(t, "chunks")
 	}
 	return c
 }
@@ -287,8 +293,22 @@ func runC15(tb stat.TB, c c15Case) {
 	consumed := 0
 	go func() {
 		pc.C.SetWriteDeadline(time.Now().Add(8 * time.Second))
-		n, err := pc.C.Write(stream)
-		consumed = n
+		off := 0
+		for i := 0; len(c.Chunks) > 0 && off < len(stream) && off < 4096; i++ {
+			k := c.Chunks[i%len(c.Chunks)]
+			if off+k > len(stream) {
+				k = len(stream) - off
+			}
+			n, err := pc.C.Write(stream[off : off+k])
+			off += n
+			if err != nil {
+				consumed = off
+				writeDone <- err
+				return
+			}
+		}
+		n, err := pc.C.Write(stream[off:])
+		consumed = off + n
 		writeDone <- err
 	}()
 	var got []uint32
